@@ -16,7 +16,7 @@ from ..recipes import build as B
 from ..recipes import ref as R
 
 LEVEL = "exploration"
-BUDGET_S = {"quick": 75, "thorough": 1500}
+BUDGET_S = {"quick": 420, "thorough": 1500}
 N_RANDOM = {"quick": 1500, "thorough": 40000}  # per shard
 RTOL = 1e-7
 
